@@ -15,7 +15,9 @@ import (
 	"github.com/olive-io/bpmn/v2/pkg/tracing"
 	"pgregory.net/rapid"
 
+	"verif/harness/drive"
 	"verif/harness/gen"
+	"verif/harness/model"
 	"verif/harness/quiesce"
 	"verif/harness/rec"
 )
@@ -219,16 +221,27 @@ func runUnit(d descriptor) *result {
 	var mu sync.Mutex
 	got, closed := 0, false
 	var at []time.Time
+	// (a cancelled timer does not close its channel: the reader ends with the case)
+	stop := make(chan struct{})
+	defer close(stop)
 	go func() {
-		for range ch {
-			mu.Lock()
-			got++
-			at = append(at, mock.Now())
-			mu.Unlock()
+		for {
+			select {
+			case _, ok := <-ch:
+				if !ok {
+					mu.Lock()
+					closed = true
+					mu.Unlock()
+					return
+				}
+				mu.Lock()
+				got++
+				at = append(at, mock.Now())
+				mu.Unlock()
+			case <-stop:
+				return
+			}
 		}
-		mu.Lock()
-		closed = true
-		mu.Unlock()
 	}()
 	ref := newRef(def, base)
 	want := ref.advance(base)
@@ -810,6 +823,118 @@ func TestC13TwoInstances(t *testing.T) {
 		rec.Case("TestC13TwoInstances", hash, true, []string{"twoInstancesOneBus"}, map[string]any{"case": d, "log": r.Log})
 		if r.Symptom != "" {
 			rt.Fatalf("%s", rec.Fail(rec.Failure{Property: prop, Test: "TestC13TwoInstances", Symptom: r.Symptom, Detail: r.Detail, Descriptor: d, History: r.Log}))
+		}
+	})
+}
+
+// ---------------------------------------------------------------------------
+// TestC13Funnel: 3..4 tokens reach ONE timer catch event (cycle timer) one
+// after another, the clock advances between the arrivals: the node is armed and
+// fired again and again, and every firing it was listening for continues every
+// waiting token exactly once (C13 last sentence), a firing nobody listened for
+// has no effect.
+
+type funnelDesc struct {
+	Tokens int          `json:"tokens"`
+	Reps   int          `json:"reps"` // -1 unbounded
+	Script []drive.Stim `json:"script"`
+}
+
+func buildFunnel(d funnelDesc) (*gen.Graph, string) {
+	expr := "R/PT10S"
+	if d.Reps >= 0 {
+		expr = fmt.Sprintf("R%d/PT10S", d.Reps)
+	}
+	b := gen.NewB()
+	st := b.Add(gen.KStart)
+	f := b.Add(gen.KPar)
+	mrg := b.Add(gen.KXor)
+	b.Connect(st, f)
+	for i := 0; i < d.Tokens; i++ {
+		t := b.Add(gen.KTask)
+		b.Connect(f, t)
+		b.Connect(t, mrg)
+	}
+	c := b.Add(gen.KCatch)
+	c.Defs = []gen.EventDef{{Kind: "timer", TimerKind: "timeCycle", TimerExpr: expr}}
+	b.Connect(mrg, c)
+	after := b.Add(gen.KTask)
+	b.Connect(c, after)
+	en := b.Add(gen.KEnd)
+	b.Connect(after, en)
+	return b.G, expr
+}
+
+func TestC13Funnel(t *testing.T) {
+	var rd funnelDesc
+	if ok, err := rec.ReplayInput(&rd); ok {
+		if err != nil {
+			t.Fatal(err)
+		}
+		if rd.Tokens == 0 {
+			return
+		}
+		g, _ := buildFunnel(rd)
+		out := drive.RunScript(&drive.ScriptCase{Graph: g, Lang: "expr", Script: rd.Script, MockClock: true, Drain: false})
+		if out.Symptom != "" {
+			fmt.Printf("REPRODUCED %s: %s\n", out.Symptom, out.Detail)
+			t.Fatalf("%s", out.Symptom)
+		}
+		return
+	}
+	rapid.Check(t, func(rt *rapid.T) {
+		d := funnelDesc{Tokens: rapid.IntRange(3, 4).Draw(rt, "tokens"), Reps: rapid.SampledFrom([]int{-1, -1, 3, 4, 2}).Draw(rt, "reps")}
+		_, expr := buildFunnel(d)
+		// reference for the firings: the cycle starts at creation; a firing falls
+		// due one interval after the previous one was delivered
+		now, nextDue, left := 0, 10, d.Reps
+		firings := 0
+		step := func(sec int) {
+			now += sec
+			s := drive.Stim{Kind: "clock", ClockS: sec}
+			if now >= nextDue && left != 0 {
+				s.Ev = &model.Ev{Kind: "timer", Ref: expr}
+				nextDue = now + 10
+				if left > 0 {
+					left--
+				}
+				firings++
+			}
+			d.Script = append(d.Script, s)
+		}
+		for i := 0; i < d.Tokens; i++ {
+			d.Script = append(d.Script, drive.Stim{Kind: "answer", Pick: 0})
+			if rapid.IntRange(0, 3).Draw(rt, "twoAtOnce") == 0 && i+1 < d.Tokens {
+				d.Script = append(d.Script, drive.Stim{Kind: "answer", Pick: 0})
+				i++
+			}
+			if rapid.IntRange(0, 2).Draw(rt, "shortStep") == 0 {
+				step(4)
+			}
+			step(rapid.SampledFrom([]int{10, 10, 6, 25}).Draw(rt, "step"))
+			if rapid.Bool().Draw(rt, "extraStep") {
+				step(10) // a firing with (probably) nobody listening
+			}
+			if rapid.Bool().Draw(rt, "answerAfter") {
+				d.Script = append(d.Script, drive.Stim{Kind: "answer", Pick: rapid.IntRange(0, 3).Draw(rt, "pick")})
+			}
+		}
+		step(10)
+		g, _ := buildFunnel(d)
+		hash := rec.Hash(d)
+		rec.Begin("TestC13Funnel", hash, d)
+		out := drive.RunScript(&drive.ScriptCase{Graph: g, Lang: "expr", Script: d.Script, MockClock: true, Drain: false})
+		if out.Inconcl != "" {
+			rec.End(hash, "inconclusive")
+			rec.Inconclusive("TestC13Funnel", out.Inconcl)
+			rt.Fatalf("inconclusive: %s", out.Inconcl)
+		}
+		rec.End(hash, out.Symptom)
+		cls := []string{fmt.Sprintf("firings=%d", firings), fmt.Sprintf("continued=%d", len(out.Fired))}
+		rec.Case("TestC13Funnel", hash, len(out.Fired) >= 3, cls, map[string]any{"case": d, "steps": out.Steps})
+		if out.Symptom != "" {
+			rt.Fatalf("%s", rec.Fail(rec.Failure{Property: prop, Test: "TestC13Funnel", Symptom: out.Symptom, Detail: out.Detail, Descriptor: d,
+				History: map[string]any{"steps": out.Steps, "traces": out.Traces, "xml": out.XML}, Goroutines: out.Gs}))
 		}
 	})
 }
